@@ -215,6 +215,7 @@ func (w *World) normalizeLocals(overlay map[string][]byte) (map[string][]byte, [
 			as   *ast.AssignStmt
 			rhs  ast.Expr
 			uses []*ast.Ident
+			idx  int
 		}
 		cands := map[types.Object]*cand{}
 		bad := map[types.Object]bool{}
@@ -234,12 +235,12 @@ func (w *World) normalizeLocals(overlay map[string][]byte) (map[string][]byte, [
 		ast.Inspect(f.Decl.Body, func(x ast.Node) bool {
 			switch y := x.(type) {
 			case *ast.AssignStmt:
-				if y.Tok == token.DEFINE && len(y.Lhs) == 1 && len(y.Rhs) == 1 {
-					if id, ok := y.Lhs[0].(*ast.Ident); ok && id.Name != "_" && !known[id.Name] {
-						if obj := info.Defs[id]; obj != nil {
-							// a plain statement of a block (not an if/for/switch init)
-							if isBlockMember(parentOf[y], y) {
-								cands[obj] = &cand{obj: obj, as: y, rhs: y.Rhs[0]}
+				if y.Tok == token.DEFINE && len(y.Lhs) == len(y.Rhs) && isBlockMember(parentOf[y], y) {
+					// `x := e`, or one pair of the parallel form `x, y := e1, e2`
+					for i, l := range y.Lhs {
+						if id, ok := l.(*ast.Ident); ok && id.Name != "_" && !known[id.Name] {
+							if obj := info.Defs[id]; obj != nil {
+								cands[obj] = &cand{obj: obj, as: y, rhs: y.Rhs[i], idx: i}
 							}
 						}
 					}
@@ -283,6 +284,21 @@ func (w *World) normalizeLocals(overlay map[string][]byte) (map[string][]byte, [
 				c.uses = append(c.uses, id)
 			}
 		}
+		// `_ = x` (written by the helper pass to keep a binding used) is not a use; it goes when x goes
+		dummy := map[types.Object][]*ast.AssignStmt{}
+		for _, c := range cands {
+			var real []*ast.Ident
+			for _, u := range c.uses {
+				if as, ok := parentOf[ast.Node(u)].(*ast.AssignStmt); ok && len(as.Lhs) == 1 && len(as.Rhs) == 1 && as.Rhs[0] == ast.Expr(u) {
+					if l, ok := as.Lhs[0].(*ast.Ident); ok && l.Name == "_" {
+						dummy[c.obj] = append(dummy[c.obj], as)
+						continue
+					}
+				}
+				real = append(real, u)
+			}
+			c.uses = real
+		}
 		var objs []*cand
 		for _, c := range cands {
 			objs = append(objs, c)
@@ -292,7 +308,58 @@ func (w *World) normalizeLocals(overlay map[string][]byte) (map[string][]byte, [
 			if bad[c.obj] || len(c.uses) == 0 {
 				continue
 			}
+			sroa := map[*ast.Ident]ast.Expr{} // use -> field value, for a struct literal read field by field
 			if lit, ok := ast.Unparen(c.rhs).(*ast.CompositeLit); ok {
+				if _, isStruct := info.TypeOf(lit).Underlying().(*types.Struct); isStruct {
+					vals := map[string]ast.Expr{}
+					keyed := true
+					for _, e := range lit.Elts {
+						kv, isKV := e.(*ast.KeyValueExpr)
+						if !isKV {
+							keyed = false
+							break
+						}
+						if k, ok := kv.Key.(*ast.Ident); ok {
+							vals[k.Name] = kv.Value
+						}
+					}
+					all := keyed && len(lit.Elts) > 0
+					for _, u := range c.uses {
+						sel, isSel := parentOf[ast.Node(u)].(*ast.SelectorExpr)
+						if !isSel || sel.X != ast.Expr(u) || vals[sel.Sel.Name] == nil {
+							all = false
+							break
+						}
+						// the field must only be read
+						switch pp := parentOf[ast.Node(sel)].(type) {
+						case *ast.AssignStmt:
+							for _, l := range pp.Lhs {
+								if l == ast.Expr(sel) {
+									all = false
+								}
+							}
+						case *ast.UnaryExpr:
+							if pp.Op == token.AND {
+								all = false
+							}
+						case *ast.IncDecStmt:
+							all = false
+						}
+						sroa[u] = vals[sel.Sel.Name]
+					}
+					for _, v := range vals {
+						if !w.pureExpr(f, v) {
+							all = false
+						}
+					}
+					if !all {
+						continue
+					}
+				}
+			}
+			if len(sroa) > 0 {
+				// handled below with the common clobber check: the reads are those of all field values
+			} else if lit, ok := ast.Unparen(c.rhs).(*ast.CompositeLit); ok {
 				// a literal table used once, as the operand of a range: substituting keeps the single evaluation
 				okLit := len(c.uses) == 1
 				if okLit {
@@ -474,6 +541,19 @@ func (w *World) normalizeLocals(overlay map[string][]byte) (map[string][]byte, [
 			if clobber {
 				continue
 			}
+			if len(sroa) > 0 {
+				for _, u := range c.uses {
+					sel := parentOf[ast.Node(u)].(*ast.SelectorExpr)
+					v := sroa[u]
+					edits[fname] = append(edits[fname], textEdit{tf.Offset(sel.Pos()), tf.Offset(sel.End()), "(" + string(src[tf.Offset(v.Pos()):tf.Offset(v.End())]) + ")"})
+				}
+				edits[fname] = append(edits[fname], textEdit{tf.Offset(c.as.Pos()), tf.Offset(c.as.End()), dropPair(src, tf, c.as, c.idx, "// struct literal "+c.obj.Name()+" read field by field: substituted for analysis")})
+				for _, d := range dummy[c.obj] {
+					edits[fname] = append(edits[fname], textEdit{tf.Offset(d.Pos()), tf.Offset(d.End()), ""})
+				}
+				done = append(done, f.Name+":"+c.obj.Name())
+				break
+			}
 			// substitute
 			rhsText := string(src[tf.Offset(c.rhs.Pos()):tf.Offset(c.rhs.End())])
 			needParen := true
@@ -487,7 +567,10 @@ func (w *World) normalizeLocals(overlay map[string][]byte) (map[string][]byte, [
 			for _, u := range c.uses {
 				edits[fname] = append(edits[fname], textEdit{tf.Offset(u.Pos()), tf.Offset(u.End()), rhsText})
 			}
-			edits[fname] = append(edits[fname], textEdit{tf.Offset(c.as.Pos()), tf.Offset(c.as.End()), "// local " + c.obj.Name() + " substituted into its uses for analysis"})
+			edits[fname] = append(edits[fname], textEdit{tf.Offset(c.as.Pos()), tf.Offset(c.as.End()), dropPair(src, tf, c.as, c.idx, "// local "+c.obj.Name()+" substituted into its uses for analysis")})
+			for _, d := range dummy[c.obj] {
+				edits[fname] = append(edits[fname], textEdit{tf.Offset(d.Pos()), tf.Offset(d.End()), ""})
+			}
 			done = append(done, f.Name+":"+c.obj.Name())
 			break // one substitution per function per round keeps edits disjoint
 		}
@@ -626,4 +709,221 @@ func (w *World) unrollLiteralRanges(overlay map[string][]byte) (map[string][]byt
 		out[fname] = []byte(b.String())
 	}
 	return out, done
+}
+
+// ---- loop forms ------------------------------------------------------------------------------------------
+
+// restoreLoops: two purely syntactic loop rewrites are undone before analysis.
+//   - `for i := 0; i < len(S); i++ { x := S[i]; … }` where the pinned version of the function ranged over S
+//     becomes `for i, x := range S { … }` again (S and i not assigned in the body);
+//   - `for more := true; more; more = E { B }` (B has no continue, `more` is not used in B) becomes the
+//     do-while `for { B; if !(E) { break } }` it stands for.
+func (w *World) restoreLoops(overlay map[string][]byte) (map[string][]byte, []string) {
+	edits := map[string][]textEdit{}
+	var done []string
+	for _, name := range w.SortedFuncNames() {
+		f := w.Funcs[name]
+		info := f.Pkg.TypesInfo
+		tf, fname := w.fileOf(f.Decl.Pos())
+		src := readSource(fname, overlay)
+		text := func(n ast.Node) string { return string(src[tf.Offset(n.Pos()):tf.Offset(n.End())]) }
+		pinnedR := map[string]bool{}
+		for _, r := range strings.Split(pinnedRanges[name], " | ") {
+			if r != "" {
+				pinnedR[r] = true
+			}
+		}
+		haveRange := map[string]bool{}
+		ast.Inspect(f.Decl.Body, func(x ast.Node) bool {
+			if rs, ok := x.(*ast.RangeStmt); ok {
+				haveRange[exprKey(rs.X)] = true
+			}
+			return true
+		})
+		one := false
+		ast.Inspect(f.Decl.Body, func(x ast.Node) bool {
+			if one {
+				return false
+			}
+			fs, ok := x.(*ast.ForStmt)
+			if !ok || fs.Init == nil || fs.Cond == nil || fs.Post == nil {
+				return true
+			}
+			init, ok := fs.Init.(*ast.AssignStmt)
+			if !ok || init.Tok != token.DEFINE || len(init.Lhs) != 1 || len(init.Rhs) != 1 {
+				return true
+			}
+			iv, ok := init.Lhs[0].(*ast.Ident)
+			if !ok {
+				return true
+			}
+			iobj := info.Defs[iv]
+			assignedIn := func(n ast.Node, obj types.Object) bool {
+				hit := false
+				ast.Inspect(n, func(y ast.Node) bool {
+					switch z := y.(type) {
+					case *ast.AssignStmt:
+						for _, l := range z.Lhs {
+							if id, ok := ast.Unparen(l).(*ast.Ident); ok && info.ObjectOf(id) == obj {
+								hit = true
+							}
+						}
+					case *ast.IncDecStmt:
+						if id, ok := ast.Unparen(z.X).(*ast.Ident); ok && info.ObjectOf(id) == obj {
+							hit = true
+						}
+					case *ast.UnaryExpr:
+						if z.Op == token.AND {
+							if id, ok := ast.Unparen(z.X).(*ast.Ident); ok && info.ObjectOf(id) == obj {
+								hit = true
+							}
+						}
+					}
+					return true
+				})
+				return hit
+			}
+			usedIn := func(n ast.Node, obj types.Object) int {
+				c := 0
+				ast.Inspect(n, func(y ast.Node) bool {
+					if id, ok := y.(*ast.Ident); ok && info.ObjectOf(id) == obj {
+						c++
+					}
+					return true
+				})
+				return c
+			}
+			// (2) flag loop
+			if cv := f.constOf(init.Rhs[0]); cv != nil && cv.String() == "true" {
+				cid, ok1 := ast.Unparen(fs.Cond).(*ast.Ident)
+				post, ok2 := fs.Post.(*ast.AssignStmt)
+				if ok1 && ok2 && info.ObjectOf(cid) == iobj && post.Tok == token.ASSIGN && len(post.Lhs) == 1 && len(post.Rhs) == 1 {
+					if pid, ok := post.Lhs[0].(*ast.Ident); ok && info.ObjectOf(pid) == iobj && usedIn(fs.Body, iobj) == 0 {
+						hasContinue := false
+						ast.Inspect(fs.Body, func(y ast.Node) bool {
+							switch z := y.(type) {
+							case *ast.FuncLit, *ast.ForStmt, *ast.RangeStmt:
+								return false
+							case *ast.BranchStmt:
+								if z.Tok == token.CONTINUE {
+									hasContinue = true
+								}
+							}
+							return true
+						})
+						if !hasContinue {
+							body := text(fs.Body)
+							body = strings.TrimSuffix(strings.TrimSpace(body), "}")
+							edits[fname] = append(edits[fname], textEdit{tf.Offset(fs.Pos()), tf.Offset(fs.End()),
+								"for " + body + "\nif !(" + text(post.Rhs[0]) + ") {\nbreak\n}\n}"})
+							done = append(done, f.Name+": flag loop written as do-while")
+							one = true
+							return false
+						}
+					}
+				}
+				return true
+			}
+			// (1) index loop over a slice the pinned function ranged over
+			if cv := f.constOf(init.Rhs[0]); cv == nil || cv.String() != "0" {
+				return true
+			}
+			cond, ok := ast.Unparen(fs.Cond).(*ast.BinaryExpr)
+			if !ok || cond.Op != token.LSS {
+				return true
+			}
+			if id, ok := ast.Unparen(cond.X).(*ast.Ident); !ok || info.ObjectOf(id) != iobj {
+				return true
+			}
+			lc, ok := ast.Unparen(cond.Y).(*ast.CallExpr)
+			if !ok || len(lc.Args) != 1 {
+				return true
+			}
+			if id, ok := lc.Fun.(*ast.Ident); !ok || id.Name != "len" {
+				return true
+			}
+			S := lc.Args[0]
+			sk := exprKey(S)
+			if !pinnedR[sk] || haveRange[sk] {
+				return true
+			}
+			if inc, ok := fs.Post.(*ast.IncDecStmt); !ok || inc.Tok != token.INC {
+				return true
+			} else if id, ok := ast.Unparen(inc.X).(*ast.Ident); !ok || info.ObjectOf(id) != iobj {
+				return true
+			}
+			if assignedIn(fs.Body, iobj) {
+				return true
+			}
+			// S itself (a variable) must not be reassigned in the body
+			if sid, ok := ast.Unparen(S).(*ast.Ident); ok && assignedIn(fs.Body, info.ObjectOf(sid)) {
+				return true
+			}
+			head := "for " + iv.Name + " := range " + text(S) + " "
+			bodyStart := fs.Body.Pos()
+			if len(fs.Body.List) > 0 {
+				if as, ok := fs.Body.List[0].(*ast.AssignStmt); ok && as.Tok == token.DEFINE && len(as.Lhs) == 1 && len(as.Rhs) == 1 {
+					if ix, ok := ast.Unparen(as.Rhs[0]).(*ast.IndexExpr); ok && exprKey(ix.X) == sk {
+						if id, ok := ast.Unparen(ix.Index).(*ast.Ident); ok && info.ObjectOf(id) == iobj {
+							if xv, ok := as.Lhs[0].(*ast.Ident); ok {
+								k := iv.Name
+								if usedIn(fs.Body, iobj) == 1 {
+									k = "_"
+								}
+								head = "for " + k + ", " + xv.Name + " := range " + text(S) + " "
+								// drop the first statement
+								edits[fname] = append(edits[fname], textEdit{tf.Offset(as.Pos()), tf.Offset(as.End()), ""})
+							}
+						}
+					}
+				}
+			}
+			edits[fname] = append(edits[fname], textEdit{tf.Offset(fs.Pos()), tf.Offset(bodyStart), head})
+			done = append(done, f.Name+": index loop over "+sk+" written as range again")
+			one = true
+			return false
+		})
+	}
+	if len(done) == 0 {
+		return nil, nil
+	}
+	out := map[string][]byte{}
+	for k, v := range overlay {
+		out[k] = v
+	}
+	for fname, es := range edits {
+		src := readSource(fname, overlay)
+		sort.Slice(es, func(i, j int) bool { return es[i].start < es[j].start })
+		for i := 1; i < len(es); i++ {
+			if es[i].start < es[i-1].end {
+				return nil, nil
+			}
+		}
+		var b strings.Builder
+		last := 0
+		for _, e := range es {
+			b.Write(src[last:e.start])
+			b.WriteString(e.text)
+			last = e.end
+		}
+		b.Write(src[last:])
+		out[fname] = []byte(b.String())
+	}
+	return out, done
+}
+
+// dropPair renders the define statement without its idx-th pair (a comment when nothing is left).
+func dropPair(src []byte, tf *token.File, as *ast.AssignStmt, idx int, comment string) string {
+	if len(as.Lhs) == 1 {
+		return comment
+	}
+	var l, r []string
+	for i := range as.Lhs {
+		if i == idx {
+			continue
+		}
+		l = append(l, string(src[tf.Offset(as.Lhs[i].Pos()):tf.Offset(as.Lhs[i].End())]))
+		r = append(r, string(src[tf.Offset(as.Rhs[i].Pos()):tf.Offset(as.Rhs[i].End())]))
+	}
+	return strings.Join(l, ", ") + " := " + strings.Join(r, ", ") + " " + comment
 }
